@@ -161,7 +161,7 @@ def run(ctx):
         exhaustive=True,
         levels_complete={k: done[k] == v for k, v in level_sizes.items()},
         verdicts=dict(verdicts),
-        bound="grammar depth <= %d" % max(p[3] for p in plan),
+        bound="grammar depth <= %d (+ fork networks of depth 3)" % max(p[3] for p in plan if len(p) == 5),
     )
     return ctx.finish("exploration", cov, ["a model is 'valid' when the generator builds it from schema-valid parts; no TFLite interpreter is available to cross-check semantic validity",
                                           "non-termination is judged with a 120 s (re-run: 360 s) limit per compile (median compile: 30 ms)"])
